@@ -155,6 +155,40 @@ def generate(g, h):
         raise KeyError('main(...)')
     emit('ASSEMBLER_MAIN_ARGS', 'strlist', assembler_main_args)
 
+    def server_main_params():
+        """parameter list of the real server.main (positional parameters, in order)"""
+        f = None
+        for n in h.parse('sshuttle/server.py').body:
+            if isinstance(n, ast.FunctionDef) and n.name == 'main':
+                f = n
+        a = f.args
+        assert not a.vararg and not a.kwarg and not a.kwonlyargs and not a.posonlyargs and not a.defaults, ast.dump(a)
+        return [x.arg for x in a.args]
+    emit('SERVER_MAIN_PARAMS', 'strlist', server_main_params)
+
+    def main_binding():
+        """for each parameter of server.main, in order, the `options.<attr>` that assembler.py's
+        call binds to it (positionally or by keyword); '?' when unbound or not an option attribute"""
+        params = server_main_params()
+        asm = h.parse('sshuttle/assembler.py')
+        call = [c for c in h.calls(asm, lambda c: isinstance(c.func, ast.Name) and c.func.id == 'main')][0]
+
+        def attr(e):
+            if isinstance(e, ast.Attribute) and isinstance(e.value, ast.Name) and e.value.id == 'options':
+                return e.attr
+            return '?'
+        bound = {}
+        for i, e in enumerate(call.args):
+            assert not isinstance(e, ast.Starred)
+            if i < len(params):
+                bound[params[i]] = attr(e)
+        for kw in call.keywords:
+            assert kw.arg is not None and kw.arg not in bound
+            bound[kw.arg] = attr(kw.value)
+        assert len(call.args) <= len(params) and set(bound) <= set(params), (bound, params)
+        return [bound.get(p, '?') for p in params]
+    emit('MAIN_BINDING', 'strlist', main_binding)
+
     # ---- small functions the model mirrors, as normalised text (pinned in Props/C18) ----
     emit('EMPACKAGE_SRC', 'str', lambda: ast.unparse(h.func(ssh(), 'empackage')))
     emit('GET_MODULE_SOURCE_SRC', 'str', lambda: ast.unparse(h.func(ssh(), 'get_module_source')))
